@@ -240,8 +240,12 @@ class Engine:
     def rule_names(self):
         """Pattern texts of the `msg = ...` literals (a dynamic part <opcode> is instantiated with every comparison opcode)."""
         out = []
+        # the local that is copied into the global `rule` (rule = <local>) carries the name of the rule that fired
+        carriers = {n.value.id for n in ast.walk(self.rules_fn.node) if isinstance(n, ast.Assign) and len(n.targets) == 1 and isinstance(n.targets[0], ast.Name)
+                    and n.targets[0].id == "rule" and isinstance(n.value, ast.Name)}
         for n in ast.walk(self.rules_fn.node):
-            if isinstance(n, ast.Assign) and len(n.targets) == 1 and isinstance(n.targets[0], ast.Name) and n.targets[0].id == "msg":
+            if isinstance(n, ast.Assign) and len(n.targets) == 1 and isinstance(n.targets[0], ast.Name) and n.targets[0].id in carriers | {"rule"} \
+                    and not isinstance(n.value, ast.Name):
                 v = n.value
                 if isinstance(v, ast.Constant) and isinstance(v.value, str):
                     out.append(v.value)
